@@ -654,9 +654,6 @@ Definition step (t : task) (st : state) : res (tres * state) :=
         end)
   | TIter k vn [] body => ro ONormal st
   | TIter k vn ((key, val) :: more) body =>
-      (* an absent array element (array literals keep them) cannot be bound: StackFrame.set stops the process with
-         "internal coding error: absent-values should not have been assigned" *)
-      if (match key with VAbsent => true | _ => false end) || (match vn, val with Some _, VAbsent => true | _, _ => false end) then Fatal else
       match a_set_at_scope k key (stk st) with
       | None => ro OErr st
       | Some s1 =>
